@@ -165,7 +165,33 @@ tasks:
     return None
 
 
-WITNESS = {"D25": witness_D25, "D24": witness_D24, "D21": witness_D21, "D1": witness_D1, "D5a": witness_D5a, "D8": witness_D8, "D9": witness_D9, "D11": witness_D11}
+def witness_D35():
+    def run(pause):
+        c = _mk("""
+version: 1.0
+tasks:
+  t1: {with: {items: "<% list(1, 2) %>"}, action: core.noop}
+  t0: {action: core.noop}
+""")
+        c.get_next_tasks()
+        c.update_task_state("t0", 0, events.ActionExecutionEvent(S.RUNNING))
+        ev = events.TaskItemActionExecutionEvent
+        c.update_task_state("t1", 0, ev(0, S.RUNNING))
+        c.update_task_state("t1", 0, ev(1, S.RUNNING))
+        if pause:
+            c.request_workflow_status(S.PAUSING)
+        c.update_task_state("t1", 0, ev(0, S.CANCELED, accumulated_result=[None]))
+        c.update_task_state("t0", 0, events.ActionExecutionEvent(S.FAILED))
+        c.update_task_state("t1", 0, ev(1, S.SUCCEEDED, result=1, accumulated_result=[None, 1]))
+        return c.get_workflow_status()
+    a, b = run(False), run(True)
+    if a == S.CANCELED and b == S.FAILED:
+        return ("an item of with-items task t1 is canceled, then t0 fails: the workflow ends canceled; with a pause "
+                "requested before, the canceled item is ignored (no row for it from pausing) and it ends failed")
+    return None
+
+
+WITNESS = {"D35": witness_D35, "D25": witness_D25, "D24": witness_D24, "D21": witness_D21, "D1": witness_D1, "D5a": witness_D5a, "D8": witness_D8, "D9": witness_D9, "D11": witness_D11}
 
 
 def reconfirm(known, prop):
